@@ -1292,6 +1292,11 @@ func ownedAccumulator(c *ssa.CallCommon) *ssa.Alloc {
 			if !ok || l2.X != cell {
 				return nil
 			}
+		case *ssa.UnOp:
+			// named result: "return slots, nil" stores the variable into itself
+			if v.Op != token.MUL || v.X != cell {
+				return nil
+			}
 		case *ssa.MakeSlice:
 		case *ssa.Slice:
 			// slice literal: slice of a freshly allocated array, full range from 0
